@@ -1740,7 +1740,7 @@ class UserSpaceImpl(*_user_space_impl_base):
     # ----------------------------------------------------------------------
     # Attribute access
 
-    def set_attr(self, name, value, refmode=False):
+    def set_attr(self, name, value, refmode="auto"):
         """Implementation of attribute setting
 
         ``space.name = value`` by user script
